@@ -383,6 +383,15 @@ theorem crash_images_of_the_header_write (H : V2Header) (rest : Bytes) (k j : Na
       = pragma ++ (H.bytes.take m ++ zeros (40 - m)) ++ rest :=
   crashImage_header H rest k j
 
+/-- (12) … and for the **index write** in between (`index.WriteTo` at IndexOffset = end of payload + index
+    padding, one `Write` per chunk): for EVERY cut the file is untouched (the boundary case (1)), or it is
+    the file, the zero-filled padding and a prefix `X` of the index bytes — the images (5) quantifies over
+    (and, with no index padding, the window of the recorded finding). -/
+theorem crash_images_of_the_index_write (F : Bytes) (ip : Nat) (ix : Index) (k j : Nat) :
+    crashImage F (indexEvs (F.length + ip) ix) k j = F ∨
+    ∃ m, crashImage F (indexEvs (F.length + ip) ix) k j = F ++ zeros ip ++ (indexChunks ix).flatten.take m :=
+  crashImage_chunks_hole (indexChunks ix) F ip k j
+
 /-- Non-vacuity of (6)/(7): a concrete session, header cut at 37 and at 25 bytes. -/
 example : LayoutOK 0 0 60 ∧ (32 ≤ 37 ∧ 37 ≤ 40) ∧ (24 ≤ 25 ∧ 25 ≤ 32 ∧ 60 % 256 ^ (25 - 24) ≠ 0) := by
   refine ⟨⟨by decide, by decide, by decide⟩, by decide, by decide⟩
